@@ -37,6 +37,16 @@ def scenarios(thorough):
     # client fault: a send error decides the close while a pipelined request is queued
     out.append(cc.mk([P(1), P(2)], lookahead=1, workers=1, faults={"send": [errno.EINVAL]}, name="send fault EINVAL with pipelined request la=1"))
     out.append(cc.mk([P(1), P(2)], lookahead=1, workers=1, faults={"send": [errno.EPIPE]}, name="send fault EPIPE with pipelined request la=1"))
+    for la in (0, 2):
+        for e in (errno.EHOSTUNREACH, errno.EINVAL):
+            out.append(cc.mk([P(1), P(2)], lookahead=la, workers=2, faults={"send": [e] * 4}, drains=False,
+                             name="persistent send fault %s with pipelined request la=%d" % (errno.errorcode[e], la)))
+    # the application fails with an OSError after the head is out and socket errors are not logged: the truncated
+    # response closes the connection all the same
+    out.append(cc.mk([P(1), P(2)], lookahead=1, workers=2, apps={1: {"raise_at": 1, "chunks": [3, 3], "exc": "OSError"}}, adj={"log_socket_errors": False},
+                     name="OSError from the application in mid-response (log_socket_errors off), then complete la=1"))
+    out.append(cc.mk([P(1), P(2)], lookahead=0, workers=1, split="each", apps={1: {"raise_at": 1, "chunks": [3, 3], "exc": "OSError"}}, adj={"log_socket_errors": False},
+                     name="OSError from the application in mid-response (log_socket_errors off), then complete later la=0"))
     return out
 
 
